@@ -73,10 +73,10 @@ func genC18(seed uint64, tier string) *plan.Plan {
 }
 
 type c18Expect struct {
-	mustRefuse   bool // InitExportingProcess must fail
+	mustRefuse    bool // InitExportingProcess must fail
 	mustEstablish bool // everything is in order: the session must work and deliver
 	zeroDelivered bool // nothing from this exporter may be delivered
-	why          string
+	why           string
 }
 
 func c18Expectation(proto, cert, day, snMode, cliCert, cliCA int, v6 bool) c18Expect {
